@@ -640,31 +640,9 @@ def analyse(out, case, solver, tasks, varlist, outs, marks, sp, z3):
                     sem.append(('not-exhaustive', len(got), len(allp)))
                 if all(o[0] == 'ret' for o in outs) and len(outs) > len(allp) and len(allp) < 400:
                     sem.append(('more-than-exist', len(outs), len(allp)))
-            # the first request that fails ("no other solution") comes after every schedule has been returned
-            before = []
-            for op, o in zip(case['history'], outs):
-                if op[0] == 'find_another_var':
-                    break          # a request on one variable excludes more than the current schedule
-                if o[0] == 'ret' and o[1] in models:
-                    before.append(proj_of_model(models[o[1]], tasks, z3))
-                elif o[0] == 'none' and op[0] == 'find_another':
-                    if 'unknown' not in answers.values() and not any(x[0] == 'not-exhaustive' for x in sem):
-                        # is there a valid schedule that differs from every schedule returned so far?
-                        sx = base_check()
-                        for pm in set(before):
-                            diffs = []
-                            j = 0
-                            for t in tasks:
-                                diffs.append(t._start != pm[j])
-                                diffs.append(t._end != pm[j + 1])
-                                if isinstance(t._scheduled, z3.BoolRef):
-                                    diffs.append(t._scheduled != pm[j + 2])
-                                j += 3
-                            sx.add(z3.Or(diffs))
-                        if sx.check() == z3.sat:
-                            sem.append(('not-exhaustive', len(set(before)), 'another valid schedule exists: %s'
-                                        % (proj_of_model(sx.model(), tasks, z3),)))
-                    break
+            first_none_check(sem, case, outs, models, tasks, answers, base_check, z3)
+        if mode == 'history' and not case.get('objs'):
+            first_none_check(sem, case, outs, models, tasks, answers, base_check, z3)
         if mode == 'history':
             # a solve()/find_another that says "no solution" while base + own blocking clauses is satisfiable
             perm = list(base)
@@ -684,6 +662,36 @@ def analyse(out, case, solver, tasks, varlist, outs, marks, sp, z3):
                             sem.append(('feasible-reported-infeasible', None, None))
                             break
     out['sem'] = sem + out.pop('presem', [])
+
+
+def first_none_check(sem, case, outs, models, tasks, answers, base_check, z3):
+    """the first request for another solution that fails ("no other solution") comes after every schedule has been returned:
+    otherwise a plain solver finds a valid schedule that differs from all those returned since the last initialisation"""
+    before = []
+    for op, o in zip(case['history'], outs):
+        if op[0] == 'find_another_var':
+            return          # a request on one variable excludes more than the current schedule
+        if op[0] == 'initialize':
+            before = []     # the blocking clauses are dropped
+        if o[0] == 'ret' and o[1] in models:
+            before.append(proj_of_model(models[o[1]], tasks, z3))
+        elif o[0] == 'none' and op[0] == 'find_another':
+            if 'unknown' not in answers.values() and not any(x[0] == 'not-exhaustive' for x in sem):
+                sx = base_check()
+                for pm in set(before):
+                    diffs = []
+                    j = 0
+                    for t in tasks:
+                        diffs.append(t._start != pm[j])
+                        diffs.append(t._end != pm[j + 1])
+                        if isinstance(t._scheduled, z3.BoolRef):
+                            diffs.append(t._scheduled != pm[j + 2])
+                        j += 3
+                    sx.add(z3.Or(diffs))
+                if sx.check() == z3.sat:
+                    sem.append(('not-exhaustive', len(set(before)), 'another valid schedule exists: %s'
+                                % (proj_of_model(sx.model(), tasks, z3),)))
+            return
 
 
 def im_objectives(solver):
